@@ -44,6 +44,8 @@ def source_list():
     """Library translation units: the ones the CMake build compiles (src/CMakeLists or build.ninja)."""
     srcs = set()
     nin = os.path.join(REPO, "_build", "build.ninja")
+    if not os.path.exists(nin):
+        nin = "/repo/_build/build.ninja"      # scratch copies of the repository have no build directory
     if os.path.exists(nin):
         txt = open(nin, errors="replace").read()
         for m in re.finditer(r"/repo/src/[A-Za-z_0-9/]*\.(?:cpp|cxx|c)\b", txt):
